@@ -365,6 +365,14 @@ impl Node {
                 let Some(hd) = self.handles.get(h) else { return "nohandle".into() };
                 match hd.stream.send_data(Bytes::from(d)) { Ok(()) => "ok".into(), Err(_) => "err-chan".into() }
             }
+            ["sendmany", h, hxs @ ..] => {
+                // several chunks submitted back to back, before the forwarding task gets to run
+                let Ok(h) = h.parse::<usize>() else { return "bad-op".into() };
+                let Some(ds) = hxs.iter().map(|x| unhex(x)).collect::<Option<Vec<Vec<u8>>>>() else { return "bad-op".into() };
+                let Some(hd) = self.handles.get(h) else { return "nohandle".into() };
+                for d in ds { if hd.stream.send_data(Bytes::from(d)).is_err() { return "err-chan".into(); } }
+                "ok".into()
+            }
             ["feed", hx] => {
                 let Some(d) = unhex(hx) else { return "bad-op".into() };
                 if !d.is_empty() { self.feed.lock().unwrap().chunks.push_back(d); }
